@@ -162,12 +162,12 @@ def replay_script(ctx, binp, d, script, name):
     """execute one command script on the real code; returns (fails, diffs, ops, impl, model)"""
     rc, out = harness_run(ctx, binp, d, "TestVerifE2Replay",
                           {"VERIF_E2_SCRIPT": script, "VERIF_E2_NAME": name}, 120)
-    fails, _, done = parse_log(out)
+    fails, hist, done = parse_log(out)
     if done is None:
         fails.append({"key": "crash", "where": name, "what": "replay harness did not finish (rc=%s): %s" % (rc, out[-400:])})
-        return fails, [], [], [], []
+        return fails, [], [], [], [], {}
     ops, impl, model, diffs, _ = run_driver(ctx, d, name)
-    return fails, diffs, ops, impl, model
+    return fails, diffs, ops, impl, model, hist
 
 
 def shared_run(ctx):
@@ -208,11 +208,12 @@ def shared_run(ctx):
         for prop in PROPS_ALL:
             for script in sorted(glob.glob(os.path.join(ROOT, "corpus", prop, "**", "*.ops"), recursive=True)):
                 rel = os.path.relpath(script, ROOT)
-                kind = "known" if "/known/" in rel else ("fixed" if "/fixed/" in rel else "regress")
+                kind = "known" if "/known/" in rel else ("fixed" if "/fixed/" in rel else ("obs" if "/obs/" in rel else "regress"))
                 name = "corpus_" + hashlib.md5(rel.encode()).hexdigest()[:8]
-                fails, diffs, ops, impl, model = replay_script(ctx, keep, cdir, script, name)
+                fails, diffs, ops, impl, model, hist = replay_script(ctx, keep, cdir, script, name)
                 res["corpus"].append({"prop": prop, "script": rel, "kind": kind, "fails": fails,
-                                      "diffs": diffs, "lines": len(ops)})
+                                      "diffs": diffs, "lines": len(ops),
+                                      "hooks": {k: v for k, v in hist.items() if k.startswith("hook:")}})
         # 2. serial generated run (+ one re-run of the same seed if anything failed: a failure
         #    that does not reproduce is recorded as a note, not reported)
         secs = ctx.budget(22, 240)
@@ -382,7 +383,10 @@ def run_property(ctx, prop, tie, props, spec="e2_chan"):
         if c["prop"] != prop:
             continue
         ctx.corr.setdefault("corpus", []).append({"script": c["script"], "kind": c["kind"], "lines": c["lines"],
-                                                  "fails": [f["key"] for f in c["fails"]], "diffs": len(c["diffs"])})
+                                                  "fails": [f["key"] for f in c["fails"]], "diffs": len(c["diffs"]),
+                                                  "hook_schedules": c.get("hooks", {})})
+        if c["kind"] == "obs" and c.get("hooks"):
+            ctx.notes.append("observation (not a violation) %s: %s" % (c["script"], c["hooks"]))
         for f in c["fails"]:
             key = norm_key(f, "%s:%s" % (os.path.basename(c["script"]), f["key"]))
             ctx.violation(key, "%s (replay of %s)" % (f["what"], c["script"]),
